@@ -35,6 +35,7 @@ type c15AbsTable struct {
 	Hdr  bool       `json:"hdr"`
 	Hm   string     `json:"hm"`
 	Kind [][]string `json:"kind"`
+	Rw   []int      `json:"rw,omitempty"` // cells per row of a ragged table
 	M    struct {
 		R  int `json:"r"`
 		C  int `json:"c"`
@@ -87,6 +88,23 @@ func c15RandTable(rnd *rand.Rand, off, maxRows int) (c15AbsTable, c15El) {
 		}
 	}
 	el := c15El{T: "table", Nr: t.Nr, Nc: t.Nc, Hdr: t.Hdr, Hm: t.Hm, Hrows: hrows, Merged: t.M.R > 0}
+	if t.M.R == 0 && t.Nr >= 2 && t.Nc >= 2 && rnd.Intn(3) == 0 {
+		// a ragged table: one row keeps all its cells, the others may be shorter
+		full := rnd.Intn(t.Nr)
+		for r := 0; r < t.Nr; r++ {
+			w := t.Nc
+			if r != full {
+				w = 1 + rnd.Intn(t.Nc)
+			}
+			t.Rw = append(t.Rw, w)
+			if w < t.Nc {
+				el.Ragged = true
+			}
+		}
+		if !el.Ragged {
+			t.Rw = nil
+		}
+	}
 	for r := 1; r <= t.Nr; r++ {
 		var krow []string
 		var srow []c15SrcCell
@@ -95,7 +113,7 @@ func c15RandTable(rnd *rand.Rand, off, maxRows int) (c15AbsTable, c15El) {
 			krow = append(krow, k)
 			in := t.M.R > 0 && r >= t.M.R && r < t.M.R+t.M.Rs && c >= t.M.C && c < t.M.C+t.M.Cs
 			anchor := t.M.R == r && t.M.C == c
-			cell := c15SrcCell{Raw: c15Raw(k, r+off, c), Kind: k, Covered: in && !anchor, Rs: 1, Cs: 1}
+			cell := c15SrcCell{Raw: c15Raw(k, r+off, c), Kind: k, Covered: in && !anchor, Rs: 1, Cs: 1, Absent: t.Rw != nil && c > t.Rw[r-1]}
 			if anchor {
 				cell.Rs, cell.Cs = t.M.Rs, t.M.Cs
 			}
